@@ -24,4 +24,31 @@ ProjStore(js) ==
     [x \in {<<e.db, e.key>> : e \in Range(js)} |->
         LET e == CHOOSE e \in Range(js) : e.db = x[1] /\ e.key = x[2] IN Ent(ProjVal(e.v), e.d)]
 
+
+(***************************************************************************)
+(* What the JSON checkpoint formats (preamble, snapshot) do to a value.    *)
+(***************************************************************************)
+\* encoding/json writes a byte that is not valid UTF-8 as U+FFFD (the drivers' only such byte is 255)
+RECURSIVE JBytes(_)
+JBytes(b) == IF b = <<>> THEN <<>>
+             ELSE (IF Head(b) = 255 THEN <<239, 191, 189>> ELSE <<Head(b)>>) \o JBytes(Tail(b))
+
+RECURSIVE JVal(_)
+JVal(v) == CASE v.k = "int"  -> VFlt(4 * v.n)
+             [] v.k = "str"  -> VStr(JBytes(v.b))
+             [] v.k = "hash" -> VHash([f \in {JBytes(g) : g \in DOMAIN v.h} |->
+                                         JVal(v.h[CHOOSE g \in DOMAIN v.h : JBytes(g) = f])])
+             [] v.k = "list" -> [k |-> "other", go |-> "[]interface {}"]
+             [] v.k \in {"set", "zset"} -> VHash(<<>>)
+             [] OTHER        -> v
+
+
+\* the commands that can change the dataset (logged by the AOF writer, replicated in a cluster)
+WriteOps == {"SET", "MSET", "DEL", "PERSIST", "EXPIRE", "PEXPIRE", "EXPIREAT", "PEXPIREAT", "INCR", "DECR", "INCRBY",
+             "DECRBY", "INCRBYFLOAT", "RENAME", "FLUSHDB", "FLUSHALL", "GETDEL", "GETEX", "APPEND", "SETRANGE",
+             "HSET", "HSETNX", "HDEL", "HINCRBY", "HINCRBYFLOAT", "LPUSH", "LPUSHX", "RPUSH", "RPUSHX", "LPOP", "RPOP",
+             "LSET", "LTRIM", "LREM", "LMOVE", "SADD", "SREM", "SMOVE", "SPOP", "SDIFFSTORE", "SINTERSTORE",
+             "SUNIONSTORE", "ZADD", "ZINCRBY", "ZREM", "ZPOPMIN", "ZPOPMAX", "ZMPOP", "ZREMRANGEBYSCORE",
+             "ZREMRANGEBYRANK", "ZREMRANGEBYLEX", "ZDIFFSTORE", "ZINTERSTORE", "ZUNIONSTORE", "ZRANGESTORE"}
+
 =============================================================================
